@@ -5,6 +5,7 @@
 // kinds of objects (storage vectors, row-major for matrices):
 //   x scalar | t tensor<N> | s stensor<N> | r tmatrix<3,3> (rotation_matrix) |
 //   A st2tost2<N> | B t2tot2<N> | C t2tost2<N> | D st2tot2<N>
+//   v three scalars (tvector<3>, e.g. eigenvalues) | m plain 3x3 matrix, row-major, the same meaning for every N
 #ifndef VERIF_TT_HXX
 #define VERIF_TT_HXX
 #include "symtfel.hxx"
@@ -39,6 +40,8 @@ namespace tt {
       case 't': return tsz(N);
       case 's': return ssz(N);
       case 'r': return 9;
+      case 'v': return 3;
+      case 'm': return 9;
       case 'A': return ssz(N) * ssz(N);
       case 'B': return tsz(N) * tsz(N);
       case 'C': return ssz(N) * tsz(N);
@@ -124,6 +127,9 @@ namespace tt {
                       // specification on the seeded inputs, but NO Coq obligation is generated (listed as not proved)
     std::function<V<Sym>(const In<Sym>&)> fs;
     std::function<V<double>(const In<double>&)> fd;
+    // optional: rewrites the seeded numerical inputs of sample number s (structured inputs, inputs that depend on one
+    // another such as the eigenvalues the real solver returns for the tensor of another input)
+    std::function<void(In<double>&, symv::Rng&, int)> prep;
   };
   inline std::vector<Op>& ops() {
     static std::vector<Op> o;
@@ -132,8 +138,11 @@ namespace tt {
   template <typename F>
   void reg(const std::string& name, int N, const std::string& in, char out, F f, int tier = 0, const std::string& hyp = "",
            bool proof = true) {
-    ops().push_back({name, N, in, out, hyp, tier, proof, [f](const In<Sym>& i) { return f(i); }, [f](const In<double>& i) { return f(i); }});
+    ops().push_back({name, N, in, out, hyp, tier, proof, [f](const In<Sym>& i) { return f(i); }, [f](const In<double>& i) { return f(i); }, {}});
   }
+  // the operation registered last gets a preparation hook for its numerical inputs
+  template <typename P>
+  void set_prep(P p) { ops().back().prep = p; }
 
   inline std::string subst_N(std::string s, int N) {
     for (size_t p; (p = s.find("$N")) != std::string::npos;) s.replace(p, 2, std::to_string(N) + "%nat");
@@ -261,7 +270,8 @@ namespace tt {
                     outs.size());
         // Sym-vs-double agreement, and the values of the real code for the independent numerical specification
         for (int s = 0; s < ns; ++s) {
-          const auto din = num_inputs(op, rng, s % 3);
+          auto din = num_inputs(op, rng, s % 3);
+          if (op.prep) op.prep(din, rng, s);
           const auto d = op.fd(din);
           symv::Env env;
           long double scale = 1;
